@@ -2,34 +2,10 @@
    only) and its escaping is invertible. *)
 From Coq Require Import Lia Permutation Sorted.
 From JV Require Import Model.Base Model.GoTime Gen.TypeGo Model.Schema Model.Value
-  Model.Strconv Model.Json Model.Url Proofs.BaseFacts Proofs.C11Facts.
+  Model.Strconv Model.Json Model.Url Model.UrlParse Proofs.BaseFacts Proofs.C11Facts.
 Open Scope list_scope.
 
 (** * escaping can be undone (what url.Parse / ParseQuery do with it) *)
-Definition unhex (c : ascii) : option N :=
-  let n := N_of_ascii c in
-  if ((48 <=? n) && (n <=? 57))%N then Some (n - 48)%N
-  else if ((65 <=? n) && (n <=? 70))%N then Some (n - 55)%N
-  else if ((97 <=? n) && (n <=? 102))%N then Some (n - 87)%N
-  else None.
-
-Fixpoint unescape (plus_is_space : bool) (s : string) : option string :=
-  match s with
-  | EmptyString => Some EmptyString
-  | String c rest =>
-      if Ascii.eqb c "%" then
-        match rest with
-        | String h (String l rest') =>
-            match unhex h, unhex l with
-            | Some a, Some b => option_map (String (ascii_of_N (a * 16 + b))) (unescape plus_is_space rest')
-            | _, _ => None
-            end
-        | _ => None
-        end
-      else if plus_is_space && Ascii.eqb c "+" then option_map (String " ") (unescape plus_is_space rest)
-      else option_map (String c) (unescape plus_is_space rest)
-  end.
-
 Definition qesc_char (c : ascii) : string :=
   if is_unreserved c then String c EmptyString
   else if Ascii.eqb c " " then "+" else pct c.
